@@ -70,6 +70,26 @@ let with_live s l v = set_cell s l (Live (z v))
 let isz = z 8          (* sizeof(kit::ElemNtm) = sizeof(kit::ElemCpo) = one pointer *)
 let mgr = z 1
 
+(* the schedule "the c-th element COPY fails" for models with fallible steps that leave no trace (the link step): the failing
+   position k is searched - the copy is the LAST position whose run shows exactly c copies before the failure marker *)
+let sched_for_copy run c =
+  if c < 0 then [] else begin
+    let copies_before_fail tr =
+      let rec go l n = match l with [] -> None | TFail :: _ -> Some n | TCopy _ :: r -> go r (n + 1) | _ :: r -> go r n in
+      go (Stdlib.List.rev tr) 0 in
+    let (_, s0) = run [] in
+    let total = Stdlib.List.length (Stdlib.List.filter (function TCopy _ -> true | _ -> false) s0.trace) in
+    let best = ref [] and k = ref 0 and fin = ref (c >= total) in
+    while not !fin && !k < 4000 do
+      let sch = Stdlib.List.init (!k + 1) (fun i -> i = !k) in
+      let (_, s1) = run sch in
+      (match copies_before_fail s1.trace with
+       | None -> fin := true
+       | Some n -> if n = c then best := sch else if n > c then fin := true);
+      incr k
+    done;
+    !best end
+
 let () = iter_lines (fun line ->
   match words line with
   | "mon" :: toks -> run_mon toks
@@ -121,18 +141,56 @@ let () = iter_lines (fun line ->
     let s0 = init_state (z (-1)) (z 0) (sched_of (int_of_string fail)) in
     print_result ~sortd:true false false
       (Effects2.pools_scn mgr (z 114) true (nat_of_int (int_of_string a)) (nat_of_int (int_of_string b)) s0)
-  | ["ts2"; c; j] ->     (* crew, params, root node, c-1 root items, then per child: node, 2 items *)
-    let c = int_of_string c and j = int_of_string j in
-    let k = if j < 0 then -1 else if j < c - 1 then 3 + j
-            else let j' = j - (c - 1) in 3 + (c - 1) + (j' / 2) * 3 + 1 + (j' mod 2) in
-    print_result ~blocks:false false true
-      (Effects2.ts2_copy_then_destroy mgr (z 96) (z 168) (z 24) (nat_of_int (c - 1)) (nat_of_int 2) true (z (-1)) (z (-2)) (nat_of_int c)
-         (Effects2Proofs.rows_init (sched_of k)))
+  | ["hsf"; _; k] ->
+    let s0 = with_live (init_state (z (-1)) (z 0) (sched_of (int_of_string k))) (z (-3), z 0) 7 in
+    print_result false true (Effects4.first_insert_scn mgr (z 1) (z 2) (z 3) true (z (-3), z 0) s0)
+  | ["tsnprobe"; _] -> print_endline "?"
+  | ["tsn"; n; shape; j] ->
+    (* shape in preorder: items[(child,...)]; the j-th element copy fails: located among the fallible steps of a failure-free run *)
+    let j = int_of_string j in
+    let pos = ref 0 in
+    let peek () = if !pos < String.length shape then shape.[!pos] else ' ' in
+    let rec node () =
+      let st = !pos in
+      while peek () >= '0' && peek () <= '9' do incr pos done;
+      let cnt = int_of_string (String.sub shape st (!pos - st)) in
+      let kids = if peek () = '(' then begin incr pos; let l = ref [node ()] in
+          while peek () = ',' do incr pos; l := node () :: !l done; incr pos; Stdlib.List.rev !l end else [] in
+      Effects4.Node (nat_of_int cnt, Stdlib.List.fold_right (fun k acc -> Effects4.FCons (k, acc)) kids Effects4.FNil) in
+    if int_of_string n = 0 then print_endline "val ! 0 0 0" else begin
+    let t = node () in
+    let run sch = Effects4.tsn_copy_then_destroy mgr (z 96) (z 168) (z 24) true (z (-1)) t (Effects2Proofs.rows_init sch) in
+    let sch = if j < 0 then [] else begin
+        let (_, s0) = run [] in
+        let steps = Stdlib.List.filter_map (function TAlloc _ -> Some false | TCopy _ -> Some true | _ -> None) (Stdlib.List.rev s0.trace) in
+        let rec go l seen acc = match l with
+          | [] -> []
+          | true :: _ when seen = j -> Stdlib.List.rev (true :: acc)
+          | true :: r -> go r (seen + 1) (false :: acc)
+          | false :: r -> go r seen (false :: acc) in
+        go steps 0 [] end in
+    print_result ~blocks:false false true (run sch) end
+  | ["growa"; cat; n; c] ->
+    let c = int_of_string c and n = int_of_string n in
+    let run sch = Effects3.hs_history_auto (cat_of cat) mgr (fun _ -> z 64) Effects3.open2n2_capacity (nat_of_int n) (z (-1)) (Effects2Proofs.rows_init sch) in
+    let sch = if c < 0 then [] else begin
+        let (_, s0) = run [] in
+        let steps = Stdlib.List.filter_map (function TAlloc _ -> Some false | TCopy _ -> Some true | _ -> None) (Stdlib.List.rev s0.trace) in
+        let rec go l seen acc = match l with
+          | [] -> []
+          | true :: _ when seen = c -> Stdlib.List.rev (true :: acc)
+          | true :: r -> go r (seen + 1) (false :: acc)
+          | false :: r -> go r seen (false :: acc) in
+        go steps 0 [] end in
+    let (_, s1) = run sch in
+    let kinds = Stdlib.List.filter_map (function TCopy _ -> Some "C" | TMove _ -> Some "M" | TDestroy _ -> Some "X" | TFail -> Some "F" | _ -> None)
+        (Stdlib.List.rev s1.trace) in
+    print_endline ("kinds" ^ String.concat "" (Stdlib.List.map (fun k -> " " ^ k) kinds) ^ " ! 0 0 0")
   | ["sa"; n; c] ->      (* 4 items per segment: the c-th copy comes after c/4 + 1 segment allocations *)
     let c = int_of_string c in
     let k = if c < 0 then -1 else c + c / 4 + 1 in
     print_result ~blocks:false false true
-      (Effects3.sa_ctor_then_destroy mgr (z 32) (nat_of_int 4) (z (-1)) (nat_of_int (int_of_string n)) (Effects2Proofs.rows_init (sched_of k)))
+      (Effects3.sa_ctor_then_destroy mgr (z 32) (fun _ -> nat_of_int 4) (z (-1)) (nat_of_int (int_of_string n)) (Effects2Proofs.rows_init (sched_of k)))
   | ["growprobe"; _; _] -> print_endline "?"
   | ["grow"; cat; flags; c] ->
     (* the schedule "the c-th element COPY fails" is found by running the model once without failures and locating the
@@ -156,16 +214,14 @@ let () = iter_lines (fun line ->
     let kinds = Stdlib.List.filter_map (function TCopy _ -> Some "C" | TMove _ -> Some "M" | TDestroy _ -> Some "X" | TFail -> Some "F" | _ -> None)
         (Stdlib.List.rev s1.trace) in
     print_endline ("kinds" ^ String.concat "" (Stdlib.List.map (fun k -> " " ^ k) kinds) ^ " ! 0 0 0")
-  | ["dt"; n; c] ->      (* the c-th element copy fails: crew alloc, then per row: alloc, 2 copies, link step *)
+  | ["dt"; n; c] ->      (* the c-th element copy fails: located among the fallible steps of a failure-free run *)
     let c = int_of_string c in
-    let k = if c < 0 then -1 else 1 + (c / 2) * 4 + 1 + (c mod 2) in
-    print_result ~blocks:false false true
-      (Effects2.dt_copy_then_destroy mgr (z 40) (z 24) (nat_of_int 2) false true true (z (-1)) (z (-2)) (nat_of_int (int_of_string n))
-         (Effects2Proofs.rows_init (sched_of k)))
-  | ["hmm"; n; c] ->     (* two crews, then per key: alloc, 2 value copies, link step, key copy *)
+    let run sch = Effects2.dt_copy_then_destroy mgr (z 40) (z 24) (fun _ -> nat_of_int 2) false true (z 2) true (z (-1)) (z (-2))
+        (nat_of_int (int_of_string n)) (Effects2Proofs.rows_init sch) in
+    print_result ~blocks:false false true (run (sched_for_copy run c))
+  | ["hmm"; n; c] ->     (* key i has i mod 3 + 1 values *)
     let c = int_of_string c in
-    let k = if c < 0 then -1 else 2 + (c / 3) * 5 + (if c mod 3 < 2 then 1 + c mod 3 else 4) in
-    print_result ~blocks:false false true
-      (Effects2.hmm_ctor_then_destroy mgr (z 40) (z 24) (nat_of_int 2) true true true (z (-1)) (z (-2)) (nat_of_int (int_of_string n))
-         (Effects2Proofs.rows_init (sched_of k)))
+    let run sch = Effects2.hmm_ctor_then_destroy mgr (z 40) (z 24) (fun i -> nat_of_int (int_of_z i mod 3 + 1)) true true (z 8) true (z (-1)) (z (-2))
+        (nat_of_int (int_of_string n)) (Effects2Proofs.rows_init sch) in
+    print_result ~blocks:false false true (run (sched_for_copy run c))
   | _ -> print_endline "?")
